@@ -245,6 +245,11 @@ def handleGuard (args impl : List String) : Option Reply := do
             if protectedOk 20 labelsQ (some mq) (guardOf 0) then "ok" else "bad:reporter_region_unprotected"
   pure (exact model (" ".intercalate impl) spec)
 
+/-- adjacent-pair check of an m/z array (the deisotoper presupposes ascending m/z) -/
+def ascendingF : List Float32 → Bool
+  | a :: b :: rest => decide (a ≤ b) && ascendingF (b :: rest)
+  | _ => true
+
 /-- `tmtproc`: the runner's pipeline on one raw spectrum.
     Model = `minDeisotopeMz` (this file's tie of the runner expression) → C10's model of
     `SpectrumProcessor::process` → `quantify`, all at `Float32`, compared exactly.
@@ -282,6 +287,9 @@ def handleProc (args impl : List String) : Option Reply := do
       if irows.any (fun r => r.specId != (if level == 2 then "s" else "p") || r.fileId != 0) then "bad:row_key" else
       if irows.any (fun r => r.peaks.length != (labelsBits plex).length) then "bad:channel_count" else
       if maxPeaks < peaks.length then "na" else
+      -- the raw list is used AS GIVEN (any order, duplicates): the definition is order-independent. Only where the
+      -- deisotoper runs (MS2, deisotoping on) is an ascending m/z array presupposed
+      if rawLevel == 2 && deiso && !ascendingF (peaks.map fun (m, _) => f32OfBits m) then "na" else
       let rawQ : Option (List (Peak Rat)) := peaks.mapM fun (m, i) => do
         let mq ← ratOfF32Bits m
         let iq ← ratOfF32Bits i
@@ -289,7 +297,9 @@ def handleProc (args impl : List String) : Option Reply := do
       match ratsOf (labelsBits plex), rawQ, irows.mapM rowQ with
       | some labelsQ, some rawQ, some rowsQ =>
         if rowsQ.all (fun r => channelsOk Sage.Gen.PROTON (-20) 20 (guardOf Sage.Gen.PROTON) rawQ labelsQ r.peaks)
-        then "ok" else "bad:reporter_changed_by_deisotoping"
+        then "ok"
+        else if rawLevel == 2 && deiso then "bad:reporter_changed_by_deisotoping"
+        else "bad:reporter_ne_raw_max"   -- the deisotoper did not even run (MS3, or deisotoping off): conversion / sort / top-N
       | _, _, _ => "na"
   pure (exact model (" ".intercalate impl) spec)
 
@@ -358,6 +368,8 @@ def handleRun (args impl : List String) : Option Reply := do
       if !matchRows keyOk atLevel irows then "bad:row_key" else
       if irows.any (fun r => r.peaks.length != (labelsBits plex).length) then "bad:channel_count" else
       if atLevel.any (fun x => x.2.peaks.length > maxPeaks) then "na" else
+      -- raw lists are used AS GIVEN (any order); ascending m/z is presupposed only where the deisotoper runs
+      if level == 2 && deiso && atLevel.any (fun x => !ascendingF (x.2.peaks.map (·.1))) then "na" else
       let specQ (x : Nat × RawSpec Float32) : Option (Spectrum Rat) := do
         let peaks ← x.2.peaks.mapM fun (m, i) => do
           let mq ← ratOfF32Bits m.toBits.toNat
